@@ -115,6 +115,8 @@ enum Leaf {
     InnerMinus,
     Lda(VK),
     Byte(VK),
+    /// `lda #c1`: the constant defined at the top of main.asm
+    LdaTop,
 }
 
 #[derive(Clone, PartialEq, Eq, Hash, Debug)]
@@ -208,6 +210,7 @@ impl Leaf {
     fn name(&self) -> &'static str {
         match self {
             Leaf::Nop => "nop",
+            Leaf::LdaTop => "lda#top-const",
             Leaf::JmpOuter => "jmp-outer",
             Leaf::JmpFwd => "jmp-fwd",
             Leaf::InnerLabel => "inner-label",
@@ -278,8 +281,9 @@ fn is_base(l: &Level) -> bool {
     )
 }
 
-const LEAVES: [Leaf; 11] = [
+const LEAVES: [Leaf; 12] = [
     Leaf::Nop,
+    Leaf::LdaTop,
     Leaf::JmpOuter,
     Leaf::JmpFwd,
     Leaf::InnerLabel,
@@ -398,6 +402,7 @@ impl<'n> Builder<'n> {
     fn leaf(&self) -> Vec<Stmt> {
         match self.nest.leaf {
             Leaf::Nop => vec![imp("nop")],
+            Leaf::LdaTop => vec![ins("lda", Form::Imm, id("c1"))],
             Leaf::JmpOuter => vec![ins("jmp", Form::Plain, id("outer"))],
             Leaf::JmpFwd => vec![ins("jmp", Form::Plain, id("fwd"))],
             Leaf::InnerLabel => vec![Stmt::Braces(vec![
@@ -432,7 +437,7 @@ impl<'n> Builder<'n> {
                     Cond::Late1 => id("late1"),
                     Cond::Late0 => id("late0"),
                 };
-                let mut defs = vec![filler.clone(), label("fwd"), label("outer")];
+                let mut defs = vec![filler.clone(), label("fwd"), label("outer"), konst("c1", num(9))];
                 for (j, l) in self.nest.levels.iter().enumerate() {
                     if matches!(l, Level::Const { .. }) {
                         defs.push(konst(&format!("k{}", j), num(9)));
